@@ -32,13 +32,19 @@ Theorem prefix_match_refuted :
   ctr_match [mk_m ["n";"o"]%byte OpEq []] (mk_ctr ["a"%byte]) = true.
 Proof. exact DockerP.prefix_match_refuted. Qed.
 
-(** the daemon is asked for the engine's window truncated to whole seconds: since = floor(start / 1s), until = floor(end / 1s) *)
+(** the daemon is asked for the engine's window in whole seconds, never a narrower one: since = floor(start / 1s) and
+    until = ceil(end / 1s) cover [start, end] and are less than a second wider on either side *)
 Theorem window_truncated : forall s e, 0 <= s -> 0 <= e ->
-  log_opts s e = (dec (s / 1000000000), dec (e / 1000000000)) /\
+  log_opts s e = (dec (s / 1000000000), dec (ceil_sec e)) /\
   (s / 1000000000) * 1000000000 <= s < (s / 1000000000 + 1) * 1000000000 /\
-  (e / 1000000000) * 1000000000 <= e < (e / 1000000000 + 1) * 1000000000.
-Proof. exact window_truncated_lemma. Qed.
+  (ceil_sec e - 1) * 1000000000 < e <= ceil_sec e * 1000000000.
+Proof. exact window_covers_lemma. Qed.
 Print Assumptions window_truncated.
+
+(** until = floor(end / 1s), what openLog sent before the fix of D35, is narrower whenever the end is not on a whole second *)
+Theorem floor_until_refuted : exists s e, 0 <= s /\ 0 <= e /\
+  log_opts_floor s e = (dec (s / 1000000000), dec (e / 1000000000)) /\ (e / 1000000000) * 1000000000 < e.
+Proof. exact floor_until_refuted_lemma. Qed.
 
 (** every record handed to the engine carries the labels of the container whose stream produced it, its own
     timestamp and its own bytes (that the merge emits element (i, r) only for a record r of stream i is C04) *)
